@@ -254,6 +254,10 @@ namespace {
            char8_t buf[16];
            for (int i = 79; i >= 0; --i) { std::snprintf(reinterpret_cast<char*>(buf), sizeof buf, "d%04d", i); (void) w.lex.get_identifier(buf); }
            for (int i = 0; i < 80; ++i) { std::snprintf(reinterpret_cast<char*>(buf), sizeof buf, "u%04d", i); (void) w.lex.get_identifier(buf); (void) w.lex.get_literal(w.lex.int_type(), buf); }
+           // ... and scrambled orders (rank orders that are neither ascending nor descending exercise other rotations)
+           for (int i = 0; i < 97; ++i) { std::snprintf(reinterpret_cast<char*>(buf), sizeof buf, "s%04d", (i * 37) % 97); (void) w.lex.get_identifier(buf); (void) w.lex.get_operator(buf); }
+           { std::vector<const ipr::Type*> ts; const ipr::Type* b = &w.lex.int_type(); for (int i = 0; i < 61; ++i) { b = &w.lex.get_array(*b, w.lit(1)); ts.push_back(b); }
+             for (int i = 0; i < 61; ++i) { (void) w.lex.get_reference(*ts[std::size_t((i * 23) % 61)]); (void) w.lex.get_conversion(*ts[std::size_t((i * 17) % 61)]); (void) w.lex.get_qualified(w.lex.const_qualifier(), *ts[std::size_t((i * 29) % 61)]); } }
            const ipr::Type* t = &w.lex.char_type();
            for (int i = 0; i < 60; ++i) t = &w.lex.get_pointer(*t);
            for (int i = 0; i < 40; ++i) t = &w.lex.get_qualified(i % 2 ? w.lex.const_qualifier() : w.lex.volatile_qualifier(), w.lex.get_reference(*t)); } },
@@ -285,7 +289,13 @@ namespace {
            // a graph with links still unset is legitimately refused with logic_error (C14/C18); memory must balance either way
            try { pp << *w.tu; } catch (const std::logic_error&) { rep.count("prints_refused"); }
            pp.print_locations = true;
-           try { pp << *w.tu; } catch (const std::logic_error&) { } } },
+           try { pp << *w.tu; } catch (const std::logic_error&) { }
+           // a statement nested 30 blocks deep (90 columns of indentation)
+           ipr::impl::Block* outer = w.lex.make_block(*w.global);
+           ipr::impl::Block* cur = outer;
+           for (int d = 0; d < 30; ++d) { auto* inner = w.lex.make_block(cur->region()); cur->add_stmt(*inner); cur = inner; }
+           cur->add_stmt(*w.lex.make_return(w.lit(1)));
+           try { pp << ipr::xpr_stmt(*outer); } catch (const std::logic_error&) { } } },
    };
    constexpr int NOPS = int(sizeof ops / sizeof ops[0]);
 
